@@ -11,7 +11,7 @@
    parts, never grow a validly encoded input), written as a function on byte sequences.  TLC
    checks in every generated state that the design satisfies the abstract relation DataUriOK
    (D => A) for every kind of registered minifier, plus the sanity of the codecs themselves. *)
-EXTENDS DataUri, TLC
+EXTENDS DataUriDesign, TLC
 CONSTANTS MaxLen, Alphabet, Kinds
 VARIABLES mt, enc, pay, kind
 vars == <<mt, enc, pay, kind>>
@@ -48,32 +48,6 @@ NextSim == /\ Len(pay) < MaxLen
            /\ UNCHANGED <<mt, enc, kind>>
 SpecSim == Init /\ [][NextSim]_vars
 
-\* ------------------------------------------------------------------ design model
-\* abstract sub-minifiers
-SubFn(k, p) == CASE k = "id" -> p
-                 [] k = "shrink" -> SelectSeq(p, LAMBDA c : c # 97)        \* drops every "a"
-                 [] k = "grow3" -> p \o <<103, 103, 103>>
-                 [] k = "grow64" -> p \o [i \in 1..64 |-> 103]
-                 [] OTHER -> p
-PolicyEscape(c) == MustEscape(c) \/ c = 38
-Design(in, k) ==
-  LET pi == Parse(in) IN
-  IF ~pi.ok THEN in                                            \* D1 not a data URI
-  ELSE LET d == Decode(pi) IN
-  IF pi.b64 /\ ~d.strict THEN in                               \* D2 malformed base64 left alone
-  ELSE
-  LET q == IF k = "none" THEN d.payload ELSE SubFn(k, d.payload)
-      segs == Split(StripWs(pi.mt), 59)
-      ty == IF LowerSeq(segs[1]) = TextPlain THEN <<>> ELSE segs[1]                       \* D3 default type dropped
-      ps == SelectSeq(Tail(segs), LAMBDA s : s # <<>> /\ LowerSeq(s) # CharsetAscii)      \* D4 default charset dropped
-      mtOut == FoldLeft(LAMBDA a, s : a \o <<59>> \o s, ty, ps)
-      b64c == 7 + B64Len(Len(q))
-      pctc == Len(q) + 2 * Count(q, PolicyEscape)
-      r == Data5 \o mtOut \o (IF b64c < pctc THEN <<59>> \o Base64Tok \o <<44>> \o B64Encode(q)     \* D5 base64 shorter
-                              ELSE <<44>> \o PctEncodeWith(q, PolicyEscape))                       \* D6 percent-encoding
-  IN IF Len(in) < b64c /\ Len(in) < pctc THEN in               \* D7 input shorter than any re-encoding
-     ELSE IF d.strict /\ Len(r) > Len(in) THEN in              \* D8 never grow a validly encoded input
-     ELSE r
 Branch(in, k) ==                                               \* which design branch a state exercises
   LET pi == Parse(in) IN
   IF ~pi.ok THEN "D1" ELSE LET d == Decode(pi) IN IF pi.b64 /\ ~d.strict THEN "D2" ELSE
